@@ -4,6 +4,8 @@ import (
 	"encoding/json"
 	"fmt"
 	"os"
+	"os/exec"
+	"path/filepath"
 	"strings"
 	"time"
 
@@ -730,5 +732,63 @@ func runC11(rep *engines.Report, p *pool.Pool, tier string) int {
 	return rep.Finish()
 }
 
-// racePass: placeholder until the free-running -race build exists.
-func racePass(rep *engines.Report) {}
+// racePass: the same scenario bodies, free-running (real goroutines, sync.Mutex, io.Pipe) in a binary built with -race.
+// This pass samples schedules by nature; it exists because a cooperative scheduler's hand-offs are happens-before
+// edges that blind the race detector. It is reported separately and is not what the exhaustiveness claim rests on.
+func racePass(rep *engines.Report) {
+	bin := filepath.Join(verifDir(), ".build", "stfsmc-race")
+	if _, err := os.Stat(bin); err != nil {
+		rep.Coverage["race_pass"] = "not run: the -race binary is not built"
+		return
+	}
+	iters := "30"
+	if rep.Tier != "quick" {
+		iters = "150"
+	}
+	type result struct {
+		Scenario string `json:"scenario"`
+		Output   string `json:"output"`
+		Races    int    `json:"races"`
+	}
+	results := []result{}
+	for _, scn := range engines.Scenarios() {
+		if strings.HasPrefix(scn.Name, "S6") {
+			continue // deadlocks (known finding): nothing to sample
+		}
+		cmd := exec.Command(bin, "racebody", scn.Name, iters)
+		cmd.Env = append(os.Environ(), "GOMAXPROCS=16", "GORACE=halt_on_error=0")
+		var out, errb strings.Builder
+		cmd.Stdout, cmd.Stderr = &out, &errb
+		done := make(chan error, 1)
+		_ = cmd.Start()
+		go func() { done <- cmd.Wait() }()
+		select {
+		case <-done:
+		case <-time.After(5 * time.Minute):
+			_ = cmd.Process.Kill()
+			<-done
+		}
+		races := strings.Count(errb.String(), "WARNING: DATA RACE")
+		results = append(results, result{scn.Name, strings.TrimSpace(out.String()), races})
+		if races > 0 {
+			// class = scenario + the first stfs frames of the report
+			rptxt := errb.String()
+			frames := []string{}
+			for _, ln := range strings.Split(rptxt, "\n") {
+				ln = strings.TrimSpace(ln)
+				if strings.HasPrefix(ln, "github.com/pojntfx/stfs/") && len(frames) < 2 {
+					f := ln
+					if i := strings.Index(f, "("); i > 0 && strings.Contains(f[i:], ")") && !strings.Contains(f[:i], "(*") {
+						f = f[:i]
+					}
+					frames = append(frames, strings.TrimPrefix(f, "github.com/pojntfx/stfs/"))
+				}
+			}
+			if len(rptxt) > 3000 {
+				rptxt = rptxt[:3000]
+			}
+			rep.Add("", nil, []engines.Violation{{Prop: "C11", Class: "C11|data-race|" + scn.Name + "|" + strings.Join(frames, "<-"), Detail: "free-running -race pass on scenario " + scn.Name + ":\n" + rptxt}})
+		}
+	}
+	rep.Coverage["race_pass"] = map[string]interface{}{"sampled": true, "iterations_per_scenario": iters, "results": results}
+}
